@@ -261,13 +261,19 @@ class Link:
                 self.transport._closing = True
                 self.loop.call_soon(self.transport._call_lost, act[1] if len(act) > 1 else ConnectionResetError("write failed"))
             elif kind == "pause":
-                # transport buffer above high water: the stream protocol is told to pause; resume after `steps` loop steps
-                self.protocol.pause_writing()
-                gw.session.at_step(self.loop.steps + act[1], self._resume)
+                # transport buffer above high water: the stream protocol is told to pause (once, like a real transport does
+                # when the mark is crossed); it is resumed `steps` loop steps after the last pause request
+                self.resume_step = max(getattr(self, "resume_step", 0), self.loop.steps + act[1])
+                if not getattr(self, "paused", False):
+                    self.paused = True
+                    self.protocol.pause_writing()
+                gw.session.at_step(self.resume_step, self._resume)
 
     def _resume(self):
-        if not self.lost_called:
-            self.protocol.resume_writing()
+        if getattr(self, "paused", False) and self.loop.steps >= self.resume_step:
+            self.paused = False
+            if not self.lost_called:
+                self.protocol.resume_writing()
 
     def bytes_written(self) -> bytes:
         return b"".join(d for _, _, d in self.written)
